@@ -264,8 +264,24 @@ impl EGraph {
                     for (rule_id, _rule) in rules.iter() {
                         let rule_info = record.rule_info.get_mut(rule_id).unwrap();
 
-                        let matches: Vec<Value> =
+                        let mut matches: Vec<Value> =
                             std::mem::take(rule_info.matches.lock().unwrap().as_mut());
+                        // Residual matches from earlier steps live outside the
+                        // database, so rebuilding does not touch them. Canonicalize
+                        // their ids so delayed matches are applied modulo the
+                        // equalities that hold now.
+                        let tys = rule_info
+                            .free_vars
+                            .iter()
+                            .map(|v| v.sort.column_ty(&self.backend))
+                            .collect::<Vec<_>>();
+                        if !tys.is_empty() {
+                            for row in matches.chunks_mut(tys.len()) {
+                                for (val, ty) in row.iter_mut().zip(tys.iter()) {
+                                    *val = self.backend.get_canon_repr(*val, *ty);
+                                }
+                            }
+                        }
                         let mut matches = Matches::new(matches, rule_info.free_vars.clone());
                         rule_info.should_seek =
                             record
